@@ -49,6 +49,9 @@ pub enum Op {
     /// declare -i / -l / -u
     Attr { name: String, attr: String, val: String },
     Readonly { name: String, val: String },
+    /// IFS=<value> (digits, empty, newline, ...): shell state like any other variable, and
+    /// hostile to every unquoted expansion of the carrier
+    Ifs { val: String },
     ArrSet { name: String, elems: Vec<(u32, String)> },
     ArrElem { name: String, idx: u32, val: String },
     ArrAppend { name: String, val: String },
@@ -256,6 +259,16 @@ impl Op {
             Op::Unset { name } => decorate("var.unset", name, None),
             Op::Attr { name, attr, .. } => decorate(&format!("var.attr.{attr}"), name, None),
             Op::Readonly { name, val } => decorate("var.readonly", name, Some(val)),
+            Op::Ifs { val } => format!(
+                "var.ifs({})",
+                if val.is_empty() {
+                    "empty"
+                } else if val.chars().any(|c| c.is_ascii_digit()) {
+                    "digit"
+                } else {
+                    "other"
+                }
+            ),
             Op::ArrSet { elems, .. } => {
                 let sparse = elems.iter().enumerate().any(|(i, (k, _))| *k as usize != i);
                 let vc = elems.iter().map(|(_, v)| value_class(v)).filter(|c| !c.is_empty()).collect::<BTreeSet<_>>();
@@ -327,6 +340,7 @@ impl Op {
             Op::Unset { .. } => "var.unset",
             Op::Attr { .. } => "var.attr",
             Op::Readonly { .. } => "var.readonly",
+            Op::Ifs { .. } => "var.ifs",
             Op::ArrSet { .. } | Op::ArrElem { .. } | Op::ArrAppend { .. } | Op::ArrUnsetElem { .. } => "var.array",
             Op::AssocSet { .. } | Op::AssocElem { .. } | Op::AssocUnsetElem { .. } => "var.assoc",
             Op::FnDef { name, .. } if name_class(name) == "dashed" => "fn.dashed",
@@ -354,6 +368,7 @@ impl Op {
             Op::Unset { name } => format!("unset -v {name}"),
             Op::Attr { name, attr, val } => format!("declare -{attr} {name}={}", sh_quote(val)),
             Op::Readonly { name, val } => format!("readonly {name}={}", sh_quote(val)),
+            Op::Ifs { val } => format!("IFS={}", if val.is_empty() { "''".to_string() } else { sh_quote(val) }),
             Op::ArrSet { name, elems } => {
                 let body: Vec<String> = elems.iter().map(|(i, v)| format!("[{i}]={}", sh_quote(v))).collect();
                 format!("{name}=({})", body.join(" "))
@@ -499,6 +514,8 @@ fn probe_text() -> String {
         r#"(
 echo "@@opts"; set +o
 echo "@@shopt"; shopt -p
+echo "@@var:IFS"; declare -p IFS 2>/dev/null || echo "<unset>"
+IFS=$' \t\n'
 set +a +e +u +f +C; set +o posix; set +o pipefail; shopt -u nullglob failglob nocasematch
 env -0 | {{
 declare -A __vhE=()
@@ -889,6 +906,7 @@ fn gen_op(rng: &mut Rng, m: &mut Model, risky: &Risky) -> Op {
             8,  // shopt
             7,  // cd
             5,  // pushd/popd
+            3,  // IFS
             if risky.readonly { 4 } else { 0 },
         ]);
         let op = match w {
@@ -1016,6 +1034,7 @@ fn gen_op(rng: &mut Rng, m: &mut Model, risky: &Risky) -> Op {
                     Op::Popd
                 }
             }
+            16 => Op::Ifs { val: rng.pick(&["0", "1", "01", "0123456789", "", "\n", ":", "x y", "-", " \t\n"]).to_string() },
             _ => {
                 let free: Vec<&'static str> = READONLYS.iter().copied().filter(|n| !m.readonly_used.contains(n)).collect();
                 if free.is_empty() {
@@ -1131,6 +1150,7 @@ impl Monitor for C12 {
             ("probed:var.attr".into(), f(40, 600)),
             ("probed:var.pfx".into(), f(50, 750)),
             ("probed:var.tmpl".into(), f(20, 300)),
+            ("probed:var.ifs".into(), f(10, 150)),
             ("probed:var.array".into(), f(70, 1050)),
             ("probed:var.assoc".into(), f(70, 1050)),
             ("probed:fn".into(), f(80, 1200)),
